@@ -122,3 +122,14 @@ func init() {
 		stdCalls:    map[string]stdFn{"path.Dir": {"pathDir", false}},
 	})
 }
+
+func init() {
+	g2lUnits = append(g2lUnits, &g2lUnit{
+		out: "FnModfile", ns: "Modfile", pkgDir: "modfile",
+		imports: []string{"ModVerif.Basic.GoRtUtf8", "ModVerif.Basic.GoRtStrings"},
+		fns:     []string{"isIdent", "IsDirectoryPath", "MustQuote", "AutoQuote", "parseString", "ModulePath"},
+		inout:   map[string]string{"parseString": "s"},
+		absFuncs: map[string]string{"unicode.IsPrint": "isPrint", "unicode.IsSpace": "isSpace", "strconv.Quote": "quote", "strconv.Unquote": "unquote"},
+		absSigs: map[string]string{"isPrint": "Int → Bool", "isSpace": "Int → Bool", "quote": "Bytes → Bytes", "unquote": "Bytes → (Bytes × Option String)"},
+	})
+}
